@@ -48,9 +48,10 @@ NoVer == [kind |-> "None", v |-> 0]
 NoObs == [kind |-> "none"]
 
 (* the view of the transaction under test: own pending write, else the snapshot *)
+LiveKind(kd) == kd \in {"Set", "Replace"}          \* Del / SoftDel hide the key
 ViewOf(s, w) == [k \in DOMAIN s |->
-                    IF w[k].kind # "None" THEN (IF w[k].kind = "Set" THEN w[k].v ELSE 0)
-                    ELSE IF s[k].kind = "Set" THEN s[k].v ELSE 0]
+                    IF w[k].kind # "None" THEN (IF LiveKind(w[k].kind) THEN w[k].v ELSE 0)
+                    ELSE IF LiveKind(s[k].kind) THEN s[k].v ELSE 0]
 
 Init ==
     /\ i = 1 /\ nk = 0 /\ snapv = <<>> /\ nseq = 0 /\ begun = FALSE /\ wsv = <<>>
